@@ -115,11 +115,23 @@ def _mk_sender(rtx, origin, npk):
     return s, pk
 
 
-def h_retransmit(ctx, rtx, nlost):
+def h_retransmit(ctx, rtx, nlost, wire=False):
     origin = ctx.int("origin", 0, U16)
     s, pk = _mk_sender(rtx, origin, 3)
-    lost = [(origin + ctx.int("lost%d_off" % i, -2, 130)) & U16 for i in range(nlost)]
-    sx.run(s._handle_rtcp_packet(RtcpRtpfbPacket(fmt=1, ssrc=RSSRC, media_ssrc=SSRC, lost=lost)))
+    if wire:
+        # the NACK travels as bytes: an ascending list (as NackGenerator builds it) starting up to
+        # 20 before the history, successive numbers 1..40 apart (one bitmask spans 16)
+        off = ctx.int("lost0_off", -20, 4)
+        lost = [(origin + off) & U16]
+        for i in range(1, nlost):
+            off = off + ctx.int("lost%d_delta" % i, 1, 40)
+            lost.append((origin + off) & U16)
+        data = sx.to_bytes(RtcpRtpfbPacket(fmt=1, ssrc=RSSRC, media_ssrc=SSRC, lost=lost))
+        for p in RtcpPacket.parse(data):
+            sx.run(s._handle_rtcp_packet(p))
+    else:
+        lost = [(origin + ctx.int("lost%d_off" % i, -2, 130)) & U16 for i in range(nlost)]
+        sx.run(s._handle_rtcp_packet(RtcpRtpfbPacket(fmt=1, ssrc=RSSRC, media_ssrc=SSRC, lost=lost)))
     ctx.reach("nack-handled")
     sent = [RtpPacket.parse(d) for d in s.transport.sent]
     # every listed number still in history is resent exactly once per listing, in order
@@ -318,7 +330,7 @@ STUBS = [
 HARNESSES = {
     "nack-step": Harness("nack-step", h_nack_step, lambda tier: [{"nmissing": n, "near": nr} for n in ((0, 1, 2) if tier == "quick" else (0, 1, 2, 3)) for nr in (False, True)], style="STEP", bounds="max_seq symbolic (also constrained near the wrap), <=2 (quick) / <=3 missing numbers anywhere in the 128-window, new packet from 130 behind to 8 ahead", encoded=ENC, stubs=STUBS, twin="nack-added", opts={"samples": 1}),
     "nack-jump": Harness("nack-jump", h_nack_jump, lambda tier: [{"jump": j} for j in ((129, 1000) if tier == "quick" else (129, 1000, 32767))], style="STEP (targeted, concrete size)", bounds="jumps of 129, 1000 (and 32767) sequence numbers from a symbolic max_seq", encoded=ENC, stubs=STUBS, twin="jumped", opts={"path_timeout_s": 300, "max_decisions": 200000}),
-    "retransmit": Harness("retransmit", h_retransmit, lambda tier: [{"rtx": x, "nlost": n} for x in (False, True) for n in ((1, 2) if tier == "quick" else (1, 2, 3))], style="STEP", bounds="history of 3 packets at a symbolic origin; NACK listing <=2 (quick) / <=3 numbers from 2 before to 130 after the origin; RTX on/off", encoded=ENC, stubs=STUBS, twin="nack-handled", opts={"samples": 1}),
+    "retransmit": Harness("retransmit", h_retransmit, lambda tier: [{"rtx": x, "nlost": n} for x in (False, True) for n in ((1, 2) if tier == "quick" else (1, 2, 3))] + [{"rtx": False, "nlost": n, "wire": True} for n in ((2,) if tier == "quick" else (2, 3))], style="STEP", bounds="history of 3 packets at a symbolic origin; NACK listing <=2 (quick) / <=3 numbers from 2 before to 130 after the origin; RTX on/off; plus the same NACK serialised and parsed (ascending list from 20 before the history, steps 1..40)", encoded=ENC, stubs=STUBS, twin="nack-handled", opts={"samples": 1}),
     "loop": Harness(
         "loop",
         h_loop,
